@@ -74,3 +74,25 @@ Fixpoint kept_outside (text out : list Z) (cov : list bool) : bool :=
   | x :: t', y :: o', c :: c' => ((x =? y) || (c && (y =? mask))) && kept_outside t' o' c'
   | _, _, _ => false
   end.
+
+(* ---------- the general matcher, computed from the word list alone ----------
+   (tie-breaking of c14_match_semantics: at the path p reached so far take p++[c] if some
+   word continues that way, only otherwise p++['*']; stop at the first path that is a word) *)
+Definition has_prefix (d : list (list Z)) (p : list Z) : bool :=
+  existsb (fun w => prefix_b false p w) d.
+
+Fixpoint ref_walk (d : list (list Z)) (p s : list Z) : bool :=
+  match s with
+  | [] => false
+  | c :: s' =>
+      let q := if has_prefix d (p ++ [c]) then Some (p ++ [c])
+               else if has_prefix d (p ++ [star]) then Some (p ++ [star])
+               else None in
+      match q with
+      | None => false
+      | Some p' => if wmem p' d then true else ref_walk d p' s'
+      end
+  end.
+
+Fixpoint ref_contains (d : list (list Z)) (s : list Z) : bool :=
+  ref_walk d [] s || match s with [] => false | _ :: s' => ref_contains d s' end.
